@@ -69,6 +69,15 @@ def work(chunk):
                 meters = P['PAT_TRACK'].match(c).group('meters') if want == 1 else 'x'
                 if key[0] != want and not (want == 1 and meters is None and key[0] in (1, 2)):
                     acc.bad('family-rank-wrong:%d-instead-of-%d' % (key[0], want), dict(code=c), 'discipline_sort_key(%r) = %r, family rank should be %d' % (c, key, want))
+        if ok and isinstance(key, tuple) and len(key) == 3:
+            # a spelling of a code (blanks of any kind, letter case, unit suffixes) sorts where its normal form sorts
+            try:
+                nf = U.normalize_event_code(c)
+                kn = U.discipline_sort_key(nf)
+            except Exception:
+                nf = kn = None
+            if kn is not None and isinstance(kn, tuple) and kn[:2] != key[:2]:
+                acc.bad('spelling-sorts-apart-from-its-normal-form', dict(code=c, normal_form=nf), 'discipline_sort_key(%r) = %r, of its normal form %r: %r' % (c, key, nf, kn))
         if ok and len(acc.samples) < 1 and acc.n % 97 == 0:
             acc.samples.append(dict(code=c, sort_key=list(key), distance=U.get_distance(c)))
         ok2, t = call(acc, U.text_discipline_sort_key, 'text_discipline_sort_key', c)
